@@ -1,0 +1,59 @@
+package optimizer
+
+import (
+	"reflect"
+
+	. "github.com/antonmedv/expr/ast"
+)
+
+// elementScopes tracks, while a tree is walked, the collections that the
+// enclosing closures iterate over: the static type of # is the element type
+// of such a collection, and is only as reliable as the collection's type.
+type elementScopes struct {
+	collections map[Node]Node // closure -> the collection its builtin iterates over
+	stack       []Node
+}
+
+func (s *elementScopes) enter(node Node) {
+	switch n := node.(type) {
+	case *BuiltinNode:
+		if len(n.Arguments) == 2 {
+			if s.collections == nil {
+				s.collections = make(map[Node]Node)
+			}
+			s.collections[n.Arguments[1]] = n.Arguments[0]
+		}
+	case *ClosureNode:
+		s.stack = append(s.stack, s.collections[n])
+	}
+}
+
+func (s *elementScopes) exit(node Node) {
+	if _, ok := node.(*ClosureNode); ok && len(s.stack) > 0 {
+		s.stack = s.stack[:len(s.stack)-1]
+	}
+}
+
+// guessed reports whether the static type of # is only a guess: a collection
+// that an enclosing closure iterates over contains interface{}-typed nodes.
+func (s *elementScopes) guessed() bool {
+	for _, collection := range s.stack {
+		if collection != nil {
+			d := &interfaceTyped{}
+			Walk(&collection, d)
+			if d.found {
+				return true
+			}
+		}
+	}
+	return false
+}
+
+type interfaceTyped struct{ found bool }
+
+func (d *interfaceTyped) Enter(node *Node) {
+	if t := (*node).Type(); t != nil && t.Kind() == reflect.Interface {
+		d.found = true
+	}
+}
+func (*interfaceTyped) Exit(*Node) {}
